@@ -45,6 +45,28 @@ def instances(tier, rng):
     return out
 
 
+def spot(tier, rng):
+    out = []
+    for n in ((12, 20) if tier == "quick" else (12, 20, 30, 40)):
+        path = [(i, i + 1) for i in range(n - 1)]
+        cyc = path + [(n - 1, 0)]
+        zig = [(i, i + 2) for i in range(n - 2)] + [(0, 1)]
+        for nm, es in (("path", path), ("cycle", cyc), ("zig", zig)):
+            m = len(es)
+            pats = [[True] * m, [True] * (m - 1) + [False], [False] * m, [i % 2 == 0 for i in range(m)], [rng.random() < 0.8 for _ in range(m)]]
+            out.append(dict(name="spot-%s%d" % (nm, n), n=n, edges=es, mode="vars", form="list", patterns=pats))
+    from ..ea.spec import grid_edges
+    for (h, w) in ((4, 4), (5, 5)) if tier == "quick" else ((4, 4), (5, 5), (6, 6)):
+        es = grid_edges(h, w)
+        m = len(es)
+        tree = [True] * m
+        # comb-shaped spanning tree: all horizontal edges of row 0 plus all vertical edges
+        comb = [(u // w == 0 and v == u + 1) or (v == u + w) for (u, v) in es]
+        pats = [comb, [not c for c in comb], [True] * m, [False] * m] + [[rng.random() < 0.45 for _ in range(m)] for _ in range(3)]
+        out.append(dict(name="spot-gridgraph%dx%d" % (h, w), n=h * w, edges=es, mode="vars", form="list", patterns=pats))
+    return out
+
+
 def key_of(d, kind):
     return "%s,%s,%s" % (d["form"], d["mode"], kind)
 
@@ -56,7 +78,9 @@ def run(tier, only=None):
         {"graphs": "hand-picked multigraphs with parallel edges, all simple graphs <= %d vertices, grid graphs, seeded random "
                    "loop-free multigraphs (<= %s)" % ((4, "5 vertices, 6 edges") if tier == "quick" else (5, "6 vertices, 9 edges")),
          "edge flags": "variables, a&b, mix with Python constants"},
-        ["larger multigraphs", "graphs with self-loops (the property quantifies over loop-free multigraphs)"], E.EXPL)
+        ["larger multigraphs (beyond the bound only pinned 'spot' patterns on paths/cycles up to 40 vertices and grid graphs up to 6x6 are "
+         "decided, all rank assignments symbolic)", "graphs with self-loops (the property quantifies over loop-free multigraphs)"], E.EXPL,
+        spot=spot)
 
 
 replay = E.generic_replay
